@@ -11,6 +11,6 @@ import (
 var classes = []string{"c02", "long", "prefix", "c02", "nested", "located", "root", "hibyte"}
 
 func main() {
-	corelib.SmallBatchEvery = 2
+	corelib.SmallBatchEvery = 1
 	hlib.Main(func(a *hlib.Args, e *hlib.Emitter) error { return corelib.RunFiles(a, e, classes, 20000) })
 }
